@@ -270,7 +270,7 @@ class Ledger(metaclass=LedgerRegistry):
             raise
 
     async def _select_and_reserve_utxos(self, amount: int, funding_accounts, min_amount=1):
-        min_amount = min(amount // 10, min_amount)
+        min_amount = max(1, min(amount // 10, min_amount))  # a floor of 0 makes the sqlite chooser scan nothing
         fee = Output.pay_pubkey_hash(COIN, NULL_HASH32).get_fee(self)
         selector = CoinSelector(amount, fee)
         async with self._utxo_reservation_lock:
